@@ -85,6 +85,27 @@ package resource
 //@   inline
 //@ func (Version).Equal
 //@   inline
+// C19: finalizer sets are copy-on-write. Add/Remove/Set never write the backing array they were
+// handed (it may be shared with the store's copy or with another reader); whenever the set changes,
+// the new set lives in a fresh array.
+//@ func (*Finalizers).Add
+//@   props C19
+//@   requires [target] fins != nil
+//@   modifies *fins
+//@   ensures [shared-array-untouched] forall i int :: 0 <= i && i < old(cap(*fins)) ==> old(*fins)[i] == old((*fins)[i])
+//@   ensures [changed-set-is-fresh] result ==> fresh(*fins) && len(*fins) == old(len(*fins)) + 1 && (*fins)[old(len(*fins))] == fin
+//@   ensures [kept] forall i int :: 0 <= i && i < old(len(*fins)) ==> (*fins)[i] == old((*fins)[i])
+//@ func (*Finalizers).Remove
+//@   props C19
+//@   requires [target] fins != nil
+//@   modifies *fins
+//@   ensures [shared-array-untouched] forall i int :: 0 <= i && i < old(cap(*fins)) ==> old(*fins)[i] == old((*fins)[i])
+//@   ensures [changed-set-is-fresh] result ==> fresh(*fins) && len(*fins) == old(len(*fins)) - 1
+//@ func (*Finalizers).Set
+//@   props C19
+//@   requires [target] fins != nil
+//@   modifies *fins
+//@   ensures [copied] len(*fins) == len(other) && (len(other) > 0 ==> fresh(*fins)) && (forall i int :: 0 <= i && i < len(other) ==> (*fins)[i] == other[i] && other[i] == old(other[i]))
 //@ func (Finalizers).Has
 //@   inline
 //@ func (Finalizers).Empty
